@@ -160,6 +160,10 @@ def gen_tasks(tier, seed):
             if len(r) >= 2 and cls not in ("MinPathCover",):
                 c = [r[0], r[1]]
                 tasks.append({**base, "node_flow": nf if "PathCover" not in cls else None, "constraints": [c], "kwargs": {**kw, "subpath_constraints": [c]}})
+            if cls in ("kMinPathError", "kLeastAbsErrors", "kFlowDecomp", "MinFlowDecomp"):
+                # the original edges carry an attribute with the same name as the node attribute (junk values): node mode must not read it
+                junk = [(u, v, 7 + j) for j, (u, v) in enumerate(es)]
+                tasks.append({**base, "edges": junk, "node_flow": nf, "kwargs": dict(kw)})
             if cls in ("kMinPathError", "kLeastAbsErrors") and len(G) > 2:
                 # error scale 0 / 0.5 on a node (scale 0 = ignored, also for the covering number that k=None resolves to)
                 k_all = None
@@ -235,6 +239,8 @@ def gen_tasks(tier, seed):
                 nf = nf_arb
                 kw = {"k": 1, "weight_type": "int"}
             tasks.append({**base, "node_flow": nf, "kwargs": dict(kw)})
+            if nf is not None and cls in ("kLeastAbsErrorsCycles", "kFlowDecompCycles") and name in F.CURATED_DIGRAPHS:
+                tasks.append({**base, "edges": [(u, v, 7 + j) for j, (u, v) in enumerate(es)], "node_flow": nf, "kwargs": dict(kw)})     # junk edge attribute
             inner_c = [v for v in G.nodes() if G.in_degree(v) > 0 and G.out_degree(v) > 0]
             if inner_c and not flowy and not cls.startswith("Min"):
                 v, w = rng.choice(inner_c), rng.choice(inner_c)
@@ -270,13 +276,13 @@ def node_task(task):
     cover = "PathCover" in task["cls"]
     kw["cover_type" if cover else "flow_attr_origin"] = "node"
     return {"cls": task["cls"], "edges": task["edges"], "node_flow": task["node_flow"], "node_length": task.get("node_length"),
-            "nodes": sorted({x for e in task["edges"] for x in e}), "kwargs": kw}
+            "nodes": sorted({x for e in task["edges"] for x in e[:2]}), "kwargs": kw}
 
 
 def expanded_task(task):
     """the textbook expansion, built here (not with NodeExpandedDiGraph): v -> (v.0, v.1) carrying v's value, original edges ignored"""
     G = nx.DiGraph()
-    G.add_edges_from(task["edges"])
+    G.add_edges_from([(e[0], e[1]) for e in task["edges"]])
     nf = task["node_flow"] or {}
     cover = "PathCover" in task["cls"]
     nl = task.get("node_length")
@@ -292,8 +298,10 @@ def expanded_task(task):
             edges.append((v + ".0", v + ".1", f))
             if f is None:
                 ignore.append([v + ".0", v + ".1"])
+    junk = {(e[0], e[1]): e[2] for e in task["edges"] if len(e) >= 3}      # attribute values the caller left on the original edges
     for (u, v) in G.edges():
-        edges.append((u + ".1", v + ".0") if cover else ((u + ".1", v + ".0", None, 0) if nl is not None else (u + ".1", v + ".0", None)))
+        jv = junk.get((u, v))
+        edges.append((u + ".1", v + ".0") if cover else ((u + ".1", v + ".0", jv, 0) if nl is not None else (u + ".1", v + ".0", jv)))
         ignore.append([u + ".1", v + ".0"])
     for v in task["ignored"]:
         ignore.append([v + ".0", v + ".1"])
@@ -362,7 +370,7 @@ def run_task(task):
     if a["solved"]:
         key = "walks" if task["cyc"] else "paths"
         G = nx.DiGraph()
-        G.add_edges_from(task["edges"])
+        G.add_edges_from([(e[0], e[1]) for e in task["edges"]])
         res["obligations"] += 1
         pr = []
         for r in a["m"].get_solution()[key]:
